@@ -117,7 +117,10 @@ class _ServerInternalRunAdapter(BaseInternalRunAdapterDecorator):
                     await self._runtime._handle_status_update(
                         run_id=self.run_id,
                         status="failed",
-                        error=str(event.exception),
+                        # An exception raised without a message (RuntimeError(),
+                        # a bare assert, an inner asyncio timeout) stringifies to
+                        # "": record its type so a failed handler has an error.
+                        error=str(event.exception) or exc_type.__qualname__,
                     )
                 elif isinstance(event, WorkflowTimedOutEvent):
                     logger.error(
